@@ -193,14 +193,14 @@ loop:
 				}
 				env.push(w)
 				if !env.paths.empty() && env.expdepth == 0 {
-					switch v[2].(string) {
-					case "_index":
+					switch name := v[2].(string); {
+					case name == "_index" && argcnt == 2:
 						if x = args[0]; !env.pathIntact(x) {
 							err = &invalidPathError{x}
 							break loop
 						}
 						env.paths.push(pathValue{path: args[1], value: w})
-					case "_slice":
+					case name == "_slice" && argcnt == 3:
 						if x = args[0]; !env.pathIntact(x) {
 							err = &invalidPathError{x}
 							break loop
@@ -209,7 +209,7 @@ loop:
 							path:  map[string]any{"start": args[2], "end": args[1]},
 							value: w,
 						})
-					case "getpath":
+					case name == "getpath" && argcnt == 1:
 						if !env.pathIntact(x) {
 							err = &invalidPathError{x}
 							break loop
